@@ -149,6 +149,17 @@ def build_model(impl, rng, L, fixed):
             g.step()
         except Exception:
             break
+    # extras on associations, and the removal of an asset that takes part in several associations, are frequent
+    try:
+        for c in list(g.w.m.associations):
+            if rng.random() < 0.3:
+                g.do(('set_assoc_extras', g.w.ch(c), rng.choice([{'k': 2}, {'p': {'q': [1, 2]}}, {'on': True, 'n': None, 'l': [False, 'true']}])))
+        if rng.random() < 0.35:
+            multi = [g.w.ah(a) for a in g.w.m.assets if len(a.associations) >= 2]
+            if multi:
+                g.do(('remove_asset', rng.choice(multi)))
+    except Exception:
+        pass
     m = g.w.m
     m.name = rng.choice(['model', 'müdel ✓', 'a: b', '0123', 'mo\x85del', 'two\nlines'])
     # names that are significant to YAML / unicode, applied to live assets (kept unique)
